@@ -23,10 +23,25 @@ SOURCE_OVERRIDES: dict = {}  # relpath -> patched source text (canaries only; ap
 # extraction: the verified text is the function as it is in /repo's working tree, re-read every run
 
 
-class Extracted:
+_EX_CACHE: dict = {}
+
+
+def Extracted(relpath, qualname):
+    """Cached extraction (keyed on the override text in effect, so canaries see their own source)."""
+    key = (relpath, qualname, id(SOURCE_OVERRIDES.get(relpath)))
+    e = _EX_CACHE.get(key)
+    if e is None:
+        e = _EX_CACHE[key] = _Extracted(relpath, qualname)
+    return e
+
+
+class _Extracted:
     def __init__(self, relpath, qualname):
         self.relpath, self.qualname = relpath, qualname
-        path = os.path.join(REPO, relpath)
+        if relpath.startswith("verif:"):
+            path = os.path.join(os.path.dirname(os.path.dirname(os.path.abspath(__file__))), relpath[6:])
+        else:
+            path = os.path.join(REPO, relpath)
         src = SOURCE_OVERRIDES.get(relpath) or open(path, encoding="utf-8").read()
         tree = ast.parse(src)
         node = _find(tree, qualname.split("."))
@@ -47,6 +62,8 @@ class Extracted:
 
 
 def module_name_of(relpath):
+    if relpath.startswith("verif:"):
+        return relpath[6:-3].replace("/", ".")
     parts = relpath.split("/")
     # cirq-core/cirq/value/digits.py -> cirq.value.digits
     return ".".join(parts[1:])[: -len(".py")]
@@ -230,10 +247,8 @@ class SpecFunction:
         p.axiom_keys.add(key)  # before building: recursive calls inside the body see it installed
         if self._axiom is None:
             self._axiom = self._build_axiom()
-        p.quantified = True
-        for ax in self._axiom:
-            p.solver.add(ax)
-            p.pc.append(ax)
+        bound, body = self._axiom
+        p.register_spec(self.uf(), bound, body)
 
     def _build_axiom(self):
         src = inspect.getsource(self.fn)
@@ -259,9 +274,8 @@ class SpecFunction:
             raise SpecError(f"spec function {self.__name__} must be a single return expression")
         body = interp.eval(stmts[0].value, env)
         interp.pure -= 1
-        app = self.uf()(*bound)
         rk = parse_kind(self.ret)
-        return [z3.ForAll(bound, app == sym._elem_term(body, rk), patterns=[app])]
+        return bound, sym._elem_term(body, rk)
 
 
 class SpecSeq(SSeq):
@@ -313,17 +327,19 @@ def implies(a, b):
 
 
 class LoopSpec:
-    def __init__(self, owner, index=None, inv=(), modifies=(), kinds=None):
+    def __init__(self, owner, index=None, inv=(), modifies=(), kinds=None, uses=()):
         self.owner, self.index, self.inv, self.modifies = owner, index, list(inv), list(modifies)
         self.kinds = kinds or {}
+        self.uses = list(uses)  # lemma uses applied before the inv-step obligations (ghosts <name>_head = loop-head values)
 
 
 class Case:
     """One typing of the parameters (Python functions are polymorphic; each case is verified separately)."""
 
     def __init__(self, name, params, requires=(), ensures=None, raises=None, result=None, loops=None, setup=None,
-                 may_raise=None, ghosts=None, gen=None, native_call=None):
+                 may_raise=None, ghosts=None, gen=None, native_call=None, lets=None):
         self.gen, self.native_call = gen, native_call
+        self.lets = lets or {}
         self.name, self.params, self.requires = name, params, list(requires)
         self.ensures, self.raises, self.result, self.loops, self.setup = ensures, raises, result, loops, setup
         self.may_raise = may_raise
@@ -336,9 +352,11 @@ REGISTRY: dict = {}  # key "relpath:qualname" -> Contract
 class Contract:
     def __init__(self, key, prop, params=None, requires=(), ensures=(), raises=None, may_raise=None, result=None,
                  loops=None, cases=None, modifies=(), inline=(), helpers=None, standin=None, notes="", hooks=None,
-                 setup=None, env=None, pure_result=True, old=(), ghosts=None, assumes=()):
+                 setup=None, env=None, pure_result=True, old=(), ghosts=None, assumes=(), uses=(), post_uses=()):
+        self.uses = list(uses)
+        self.post_uses = list(post_uses)
         self.key, self.prop = key, prop
-        self.relpath, self.qualname = key.split(":")
+        self.relpath, self.qualname = key.rsplit(":", 1)
         self.requires, self.ensures = list(requires), list(ensures)
         self.raises, self.may_raise = dict(raises or {}), dict(may_raise or {})
         self.result = result
@@ -360,37 +378,76 @@ class Contract:
         ex = Extracted(self.relpath, self.qualname)
         return (ex.module_name, self.qualname)
 
-    def apply(self, interp, args, kwargs, node=None):
-        """Replace a call by this contract: prove requires, havoc result, assume ensures."""
-        ex = Extracted(self.relpath, self.qualname)
-        case = self.cases[0]
-        env = Env({}, None, self._spec_globals(ex))
-        interp.bind_params(ex.node.args, args, kwargs, env, env, None)
-        p = paths.current()
-        who = f"{interp.current_owner}#call-pre.{self.qualname}@{getattr(node, 'lineno', 0)}"
-        for i, r in enumerate(self.requires + case.requires):
-            t = interp.eval_spec(r, env)
-            p.prove(interp._as_term(t), f"{who}.{i}", "call-pre")
-        for exc, cond in self.raises.items():
-            t = interp.eval_spec(cond, env)
-            if interp.branch(interp._as_term(t)) if not isinstance(t, bool) else t:
-                import builtins
+    def match_case(self, bound: dict):
+        def ok(spec_, v):
+            if not isinstance(spec_, str):
+                return True
+            sp = spec_.strip()
+            if sp == "none":
+                return v is None
+            if v is None:
+                return False
+            if sp in ("int", "nat", "pos", "bit"):
+                return isinstance(v, (int, SInt)) and not isinstance(v, bool)
+            if sp == "bool":
+                return isinstance(v, (bool, SBool))
+            if sp == "real":
+                return isinstance(v, (float, int, SReal, SInt))
+            if sp.startswith(("seq[", "list[")):
+                return isinstance(v, (tuple, list, SSeq, SList))
+            return True
 
-                raise getattr(builtins, exc)(f"by contract of {self.qualname}")
-        olds = {}
-        for name in self.modifies:
-            cur = env.lookup(name)
-            olds["old_" + name] = _snapshot(cur)
-            interp.havoc_inplace(cur, name)
-        res_spec = case.result or self.result
-        result = make_value(res_spec, "ret." + self.qualname.split(".")[-1]) if res_spec else None
-        env.vars.update(olds)
-        env.vars["result"] = result
-        for e in (case.ensures if case.ensures is not None else self.ensures):
-            t = interp.eval_spec(e, env)
-            p.assume(interp._as_term(t))
-        interp.trace.append(f"call-by-contract {self.key}")
-        return result
+        for cs in self.cases:
+            if all(ok(sp, bound.get(n)) for n, sp in cs.params.items() if n in bound):
+                return cs
+        raise OutOfReach(f"no case of the contract of {self.qualname} matches the argument kinds at this call")
+
+    def apply(self, interp, args, kwargs, node=None):
+        """Replace a call by this contract: prove requires, fork on the exceptional cases, havoc, assume ensures."""
+        ex = Extracted(self.relpath, self.qualname)
+        g = self._spec_globals(ex)
+        env = Env({}, None, g)
+        interp.bind_params(ex.node.args, args, kwargs, env, env, _real_fn(ex))
+        case = self.match_case(env.vars)
+        p = paths.current()
+        saved = interp.spec_globals
+        interp.spec_globals = dict(self.env, at=at, implies=implies)
+        for sf in self.env.values():
+            if isinstance(sf, SpecFunction):
+                sf._install(p)
+        try:
+            who = f"{interp.current_owner}#call-pre.{self.qualname}@{getattr(node, 'lineno', 0)}"
+            for i, r in enumerate(self.requires + case.requires):
+                t = interp.eval_spec(r, env)
+                p.prove(interp._as_term(t), f"{who}.{i}", "call-pre")
+            for name, expr in case.lets.items():
+                env.vars[name] = interp.eval_spec(expr, env, pure=False)
+            raises = case.raises if case.raises is not None else self.raises
+            for exc, cond in raises.items():
+                t = interp.eval_spec(cond, env)
+                hit = t if isinstance(t, bool) else interp.branch(interp._as_term(t))
+                if hit:
+                    import builtins
+
+                    raise getattr(builtins, exc)(f"by contract of {self.qualname}")
+            olds = {}
+            for name in self.modifies:
+                cur = env.lookup(name)
+                olds["old_" + name] = _snapshot(cur)
+                interp.havoc_inplace(cur, name)
+            res_spec = case.result or self.result
+            if res_spec is None:
+                raise SpecError(f"contract of {self.qualname} used at a call site needs result=<kind>")
+            result = make_value(res_spec, "ret." + self.qualname.split(".")[-1])
+            env.vars.update(olds)
+            env.vars["result"] = result
+            for e in (case.ensures if case.ensures is not None else self.ensures):
+                t = interp.eval_spec(e, env)
+                p.assume(interp._as_term(t))
+            interp.trace.append(f"call-by-contract {self.key}")
+            return result
+        finally:
+            interp.spec_globals = saved
 
     def _spec_globals(self, ex):
         g = dict(ex.module().__dict__)
@@ -409,6 +466,122 @@ def _snapshot(v):
     if isinstance(v, dict):
         return dict(v)
     return v
+
+
+LEMMAS: dict = {}
+
+
+class Lemma:
+    """Inductive lemma over spec functions: forall k in [0, bound]: claim(k).
+
+    Obligations: lemma.base (claim at 0) and lemma.step (claim(k) and 0 <= k < bound  ==>  claim(k+1)), both under
+    `requires`.  A proved lemma is used from a contract through `uses=["name(args...)"]`: its requires become
+    obligations at the use site and the quantified claim is assumed there."""
+
+    def __init__(self, name, prop, params, index, bound, claim, requires=(), env=None, uses=()):
+        self.name, self.prop, self.params, self.index, self.bound, self.claim = name, prop, params, index, bound, claim
+        self.requires, self.env, self.uses = list(requires), env or {}, list(uses)
+        self.key = f"lemma:{name}"
+        self._pyvc_native_ok = True
+        LEMMAS[name] = self
+        if env is not None:
+            env[name] = self
+
+    def _globals(self):
+        g = {"at": at, "implies": implies}
+        g.update(self.env)
+        return g
+
+    def verify(self):
+        rep = FunctionReport.__new__(FunctionReport)
+        rep.key, rep.prop, rep.sha, rep.dropped, rep.obligations = self.key, self.prop, None, [], []
+        rep.status, rep.out_of_reach, rep.error, rep.paths, rep.wall, rep.cases, rep.trace = "proved", None, None, 0, 0.0, [], set()
+        t0 = time.time()
+        owner = f"{self.prop}/{self.key}"
+        exp = paths.Explorer()
+
+        def run(p):
+            interp = Interp()
+            interp.current_owner = owner
+            interp.spec_globals = self._globals()
+            sym.install_pow2(p)
+            for sf in self.env.values():
+                if isinstance(sf, SpecFunction):
+                    sf._install(p)
+            vals = {n: make_value(sp, n) for n, sp in self.params.items()}
+            env = Env(dict(vals), None, self._globals())
+            for r in self.requires:
+                p.assume(interp._as_term(interp.eval_spec(r, env)))
+            for u in self.uses:
+                apply_use(interp, u, env, owner)
+            bound = interp.eval_spec(self.bound, env, pure=False)
+            env0 = Env({self.index: 0}, env)
+            p.prove(interp._as_term(interp.eval_spec(self.claim, env0)), f"{owner}#lemma.base", "lemma")
+            k = sym.fresh_int(self.index)
+            p.assume(z3.And(k.e >= 0, k.e < sym.as_int_term(bound)))
+            envk = Env({self.index: k}, env)
+            p.assume(interp._as_term(interp.eval_spec(self.claim, envk)))
+            envk1 = Env({self.index: k + 1}, env)
+            p.prove(interp._as_term(interp.eval_spec(self.claim, envk1)), f"{owner}#lemma.step", "lemma")
+
+        try:
+            exp.run(run)
+        except (OutOfReach, SpecError) as e:
+            rep.status, rep.error = "error", f"{type(e).__name__}: {e}"
+        except Exception as e:
+            rep.status, rep.error = "error", traceback.format_exc()[-800:]
+        for o in exp.obligations:
+            o.model_text = str(o.model)[:1500] if o.model is not None else None
+            o.model = None
+        rep.obligations = exp.obligations
+        rep.paths = exp.paths
+        rep.wall = time.time() - t0
+        sts = {o.status for o in rep.obligations}
+        if rep.status != "error":
+            rep.status = "failed" if "failed" in sts else ("undecided" if "unknown" in sts else "proved")
+        return rep
+
+    def instantiate(self, interp, args, owner, at_index=None):
+        """At a use site: prove requires, return the (quantified or instantiated) claim as a term."""
+        p = paths.current()
+        names = list(self.params)
+        env = Env(dict(zip(names, args)), None, self._globals())
+        saved = interp.spec_globals
+        interp.spec_globals = self._globals()
+        try:
+            for i, r in enumerate(self.requires):
+                p.prove(interp._as_term(interp.eval_spec(r, env)), f"{owner}#lemma-pre.{self.name}.{i}", "call-pre")
+            bound = sym.as_int_term(interp.eval_spec(self.bound, env, pure=False))
+            if at_index is not None:
+                ti = sym.as_int_term(at_index)
+                p.prove(z3.And(ti >= 0, ti <= bound), f"{owner}#lemma-pre.{self.name}.index", "call-pre")
+                return interp._as_term(interp.eval_spec(self.claim, Env({self.index: at_index}, env)))
+            k = z3.Int(sym.fresh_name(self.index))
+            with interp.scope(z3.And(k >= 0, k <= bound)):
+                body = interp._as_term(interp.eval_spec(self.claim, Env({self.index: SInt(k)}, env)))
+            p.quantified = True
+            return z3.ForAll([k], z3.Implies(z3.And(k >= 0, k <= bound), body))
+        finally:
+            interp.spec_globals = saved
+
+
+def apply_use(interp, use, env, owner):
+    """uses=["lemma(args)"] assumes forall k in [0,bound]: claim(k);  uses=["lemma(args) @ e"] assumes claim(e) only
+    (after proving 0 <= e <= bound): quantifier-free, so nothing is left to the solver's instantiation heuristics."""
+    at_expr = None
+    if "@" in use:
+        use, at_expr = [x.strip() for x in use.split("@", 1)]
+    node = _parse_expr(use)
+    if not (isinstance(node, ast.Call) and isinstance(node.func, ast.Name) and node.func.id in LEMMAS):
+        raise SpecError(f"bad uses clause {use!r}")
+    lem = LEMMAS[node.func.id]
+    args = [interp.eval_spec(a, env, pure=False) for a in node.args]
+    if at_expr is None:
+        paths.current().assume(lem.instantiate(interp, args, owner))
+    else:
+        idx = interp.eval_spec(at_expr, env, pure=False)
+        paths.current().assume(lem.instantiate(interp, args, owner, at_index=idx))
+    interp.trace.append(f"uses lemma:{lem.name}")
 
 
 class FunctionReport:
@@ -457,7 +630,7 @@ def verify(contract: Contract, registry=None) -> FunctionReport:
         if mod is None or qn is None:
             return None
         for k in inline_keys:
-            rel, q = k.split(":")
+            rel, q = k.rsplit(":", 1)
             if module_name_of(rel) == mod and q == qn:
                 e2 = Extracted(rel, q)
                 # loops inside inlined helpers are only unrolled (no invariants)
@@ -513,7 +686,7 @@ def Explorer_for(contract, case, ex, reg, inline, rep):
         interp.current_owner = owner
         g = contract._spec_globals(ex)
         interp.spec_globals = dict(contract.env, at=at, implies=implies)
-        p.use_axioms("pow2", sym.pow2_axioms())
+        sym.install_pow2(p)
         for sf in contract.env.values():
             if isinstance(sf, SpecFunction):
                 sf._install(p)
@@ -535,6 +708,11 @@ def Explorer_for(contract, case, ex, reg, inline, rep):
         specenv.vars.update(ghosts)
         for r in contract.requires + case.requires:
             p.assume(interp._as_term(interp.eval_spec(r, specenv)))
+        lets = {}
+        for name, expr in case.lets.items():
+            lets[name] = interp.eval_spec(expr, specenv, pure=False)
+            specenv.vars[name] = lets[name]
+        interp.ghost_env.update(lets)
         if first[0]:
             first[0] = False
             r = p.qf.check()
@@ -569,6 +747,12 @@ def Explorer_for(contract, case, ex, reg, inline, rep):
         rep.trace.update(interp.trace)
         post_env = Env(dict(entry), None, g)
         post_env.vars.update(interp.ghost_env)
+        post_env.vars.update(lets)
+        for u in contract.uses:
+            try:
+                apply_use(interp, u, post_env, owner)
+            except NameError:
+                pass  # the lemma's arguments are ghosts that do not exist on this path (e.g. loop never reached)
         for k, v in vals.items():
             if isinstance(v, (SList, SMap, SRec, list, dict)):
                 post_env.vars["old_" + k] = entry[k]
@@ -578,6 +762,8 @@ def Explorer_for(contract, case, ex, reg, inline, rep):
         may = case.may_raise if case.may_raise is not None else contract.may_raise
         if outcome == "return":
             post_env.vars["result"] = value
+            for u in contract.post_uses:
+                apply_use(interp, u, post_env, owner)
             for i, e in enumerate(ens):
                 t = interp.eval_spec(e, post_env)
                 p.prove(interp._as_term(t), f"{owner}#post.{i}", "post")
@@ -594,9 +780,10 @@ def Explorer_for(contract, case, ex, reg, inline, rep):
                 p.prove(interp._as_term(t), f"{owner}#exc.{en}", "exc")
             else:
                 tb = traceback.format_exception(type(value), value, value.__traceback__)
-                interp.trace.append("unexpected " + en + ": " + str(value)[:200] + " @ " + (tb[-2].strip().splitlines()[0] if len(tb) > 1 else ""))
-                rep.trace.update(interp.trace)
+                interp.unexpected.append("unexpected " + en + ": " + str(value)[:200] + " @ " + (tb[-2].strip().splitlines()[0] if len(tb) > 1 else ""))
                 ob = p.prove(False, f"{owner}#exc.unexpected.{en}", "exc")
+                if ob is not None and ob.status != "proved":
+                    ob.detail = (ob.detail + " | " + interp.unexpected[-1])[:600]
 
     try:
         exp.run(run)
